@@ -577,6 +577,10 @@ theorem delete_uniform_spec : ∀ (fuel : Nat) (n : WN) (t : PT) (m : Nat) (key 
       left; simp [delete, PT.delete]
     | value vh vv vw vd =>
       simp only [abs, Option.some.injEq] at ha; subst ha
+      have hkn : key = [] := by
+        simp only [Uniform] at hu
+        exact List.eq_nil_of_length_eq_zero (hk.trans hu)
+      subst hkn
       right; simp [delete, PT.delete, abs, NoEmpty, WInv, WN.weight]
     | short sk h c d tc =>
       obtain ⟨t', hc, rfl⟩ := abs_short_some.mp ha
